@@ -76,7 +76,7 @@ CHECKS = {
         "§4 C08, §2.3",
     ),
     "C12": (
-        "Hypothesis lists of same-dimension quantities with equal-by-construction members, exact SI-value oracle for order/ties/sorting, hash clause on observed equality; mixed Quantity/Level/Measurement/approximately pairs for == symmetry",
+        "Hypothesis lists of same-dimension quantities with equal-by-construction and nudged members (shipped units, temperature scales incl. prefixed, synthetic exactly-consistent worlds), exact SI-value oracle for order/ties/sorting, hash clause on observed equality; mixed Quantity/Level/Measurement/approximately pairs for == symmetry",
         "Exploration: reflexivity, symmetry, trichotomy, <=/>= mirroring, physical order and sorted() against exact rational SI values away from ties; hash equality whenever == is observed; == symmetric across Level/Measurement/approximately operands.",
         "Tie rule per DESIGN 2.9; unit pairs inside D_ok.",
         "§4 C12",
@@ -100,7 +100,7 @@ CHECKS = {
         "§4 C17",
     ),
     "C20": (
-        "harness-owned deterministic line-level thread scheduler (sys.settrace) driven by Hypothesis-generated schedules + exhaustive enumeration of all interleavings of the two __new__ windows",
+        "harness-owned deterministic line-level thread scheduler (sys.settrace, following calls into library code) driven by Hypothesis-generated schedules + exhaustive enumeration of all interleavings of the two __new__ windows + preemption-bounded enumeration (one, two and one-line-visit preemptions) over constructions by arithmetic, by naming constructors, by nested expressions and by parsing",
         "Exploration over schedules: 2-3 threads construct a never-before-constructed dimension/prefix/unit under generated schedules; all threads must get the same object, one registry entry, and later evaluation returns it; the two-thread __new__ window interleavings are enumerated exhaustively.",
         "Line granularity, not bytecode granularity; C-level lru_cache internals are not pre-empted; a lock-based repair would be reported as harness deadlock (exit 2).",
         "§4 C20",
